@@ -218,10 +218,17 @@ static bool make_op(Op& op, int n, bool Aempty, const std::string& profile) {
       }
     };
     op.verify = [=](const Sys& SA, const Gens&, const Sys&, const Gens&, const Sys& RC, const Gens& RG) {
-      Sys T = SA; Sys add; for (size_t i = 0; i < cv.size(); ++i) add.push_back(ref::conv(cv[i], n));
-      if (!nnc) add = ref::closure_of(add);   // strict refinements are closure-relaxed on C polyhedra
-      T.insert(T.end(), add.begin(), add.end());
-      check_equals_esys(op.name, RC, RG, ref::esys_of(T, n));
+      Sys T = SA; Sys add; bool any_strict = false; for (size_t i = 0; i < cv.size(); ++i) { add.push_back(ref::conv(cv[i], n)); if (cv[i].is_strict_inequality()) any_strict = true; }
+      if (nnc || !any_strict) { T.insert(T.end(), add.begin(), add.end()); check_equals_esys(op.name, RC, RG, ref::esys_of(T, n)); return; }
+      // C polyhedron refined with strict inequalities: the documentation promises an upward approximation,
+      // "possibly not at all": (receiver AND c) subseteq result subseteq (receiver AND closure(c)).
+      Sys lo = SA; lo.insert(lo.end(), add.begin(), add.end());
+      Sys cl = ref::closure_of(add); Sys hi = SA; hi.insert(hi.end(), cl.begin(), cl.end());
+      checked(); hx::count("op_checks");
+      std::string why; Vec wit;
+      if (!ref::esys_in_cons(ref::esys_of(lo, n), RC, &wit, &why)) { violation("C02." + op.name + ".lost_points", why + " witness " + show(wit)); return; }
+      if (ref::feasible(n, hi)) { if (!ref::gens_in_esys(RG, ref::esys_of(hi, n), &why)) violation("C02." + op.name + ".extra_points", why); }
+      else if (!RG.empty()) violation("C02." + op.name + ".not_empty", "closure-relaxed refinement is empty but result has generators");
     };
     return true;
   }
@@ -387,11 +394,14 @@ static bool make_op(Op& op, int n, bool Aempty, const std::string& profile) {
       checked(); hx::count("op_checks");
       Sys meetP = SA; meetP.insert(meetP.end(), SB.begin(), SB.end());
       Sys meetR = RC; meetR.insert(meetR.end(), SB.begin(), SB.end());
+      // triage class: which operand carries equalities, and the dimension bucket
+      bool eqA = false, eqB = false; for (size_t i = 0; i < SA.size(); ++i) if (SA[i].rel == ref::EQ) eqA = true; for (size_t i = 0; i < SB.size(); ++i) if (SB[i].rel == ref::EQ) eqB = true;
+      std::string cls = std::string(":") + (eqA ? "eq-in-receiver" : "no-eq-in-receiver") + (eqB ? "+eq-in-context" : "") + (n >= 4 ? ",dim>=4" : ",dim<=3");
       bool meet_nonempty = ref::feasible(n, meetP);
       if ((*res == 1) != meet_nonempty) { violation("C02.simplify_using_context_assign.boolean", meet_nonempty ? "returned false although the meet with the context is non-empty" : "returned true although the meet is empty"); return; }
       if (meet_nonempty) {
-        if (!sys_equal(n, meetP, meetR)) { violation("C02.simplify_using_context_assign.meet_changed", "meet with the context differs"); return; }
-        if (!sys_included(n, SA, RC)) violation("C02.simplify_using_context_assign.not_enlarging", "result does not contain the receiver");
+        if (!sys_equal(n, meetP, meetR)) { violation("C02.simplify_using_context_assign.meet_changed" + cls, "meet with the context differs: receiver " + show(SA) + " context " + show(SB) + " result " + show(RC)); return; }
+        if (!sys_included(n, SA, RC)) violation("C02.simplify_using_context_assign.not_enlarging" + cls, "result does not contain the receiver: receiver " + show(SA) + " context " + show(SB) + " result " + show(RC));
       } else {
         // documented: when the meet is empty the result is a polyhedron disjoint from the context
         if (ref::feasible(n, meetR)) violation("C02.simplify_using_context_assign.not_disjoint", "meet empty but result intersects the context");
